@@ -16,20 +16,11 @@ structure Idle (s : St) : Prop where
 theorem Idle.of_adv {s s' : St} {cs : List Call} (h : Idle s) (a : Adv s s' cs) : Idle s' :=
   ⟨a.gis.trans h.gis, a.giDirs.trans h.giDirs, a.cancelled⟩
 
-/-- the hypothesis on the matcher: go-git's domain rule, and the scan root's own `.gitignore` does not
-match the name "." -/
-structure GiOK (c : Cfg) (root : Node) : Prop where
-  domain : DomainLaw c.giMatch
-  root : OwnOK c [] root
-
-theorem lookup_ownOK (c : Cfg) (root : Node) (ho : GiOK c root) (p : Path) (n : Node) (hl : lookup root p = some n) :
-    OwnOK c p n := by
-  by_cases hp : p = []
-  · subst hp; simp [lookup] at hl; subst hl; exact ho.root
-  · exact ownOK_of_domain c ho.domain p hp n
+/-- the only hypothesis on the gitignore matcher: go-git's domain rule -/
+abbrev GiOK (c : Cfg) : Prop := DomainLaw c.giMatch
 
 theorem walkFrom_spec (c : Cfg) (hb : Benign c) (f : Faults) (above : List GiEntry)
-    (root : Node) (ho : GiOK c root) (p : Path) (s : St) (hc : s.cancelled = false) (hg : c.useGitignore = true → s.gis = above)
+    (root : Node) (ho : GiOK c) (p : Path) (s : St) (hc : s.cancelled = false) (hg : c.useGitignore = true → s.gis = above)
     (hd : s.giDirs = []) :
     (walkFrom c f s root p).2 = .none ∧
     Adv s (walkFrom c f s root p).1
@@ -44,7 +35,7 @@ theorem walkFrom_spec (c : Cfg) (hb : Benign c) (f : Faults) (above : List GiEnt
     | none => exact fserrCall_benign c hb s hc
     | some n =>
       simp only []
-      have := walkNode_spec c hb ho.domain f above p [] n s (lookup_ownOK c root ho p n hl) hc (by simpa using hg) (by rw [hd]; simp)
+      have := walkNode_spec c hb ho f above p [] n s hc (by simpa using hg) (by rw [hd]; simp)
       simpa [mustFrom, mustOneFrom_zero] using this
 
 theorem mustOne_nogi (c : Cfg) (f : Faults) (p : Path) (k : Kind) (sz : Nat) :
@@ -52,7 +43,7 @@ theorem mustOne_nogi (c : Cfg) (f : Faults) (p : Path) (k : Kind) (sz : Nat) :
   unfold mustOne reached fileEligible sizeOk stackMatch
   simp
 
-theorem walkRequested_spec (c : Cfg) (hb : Benign c) (f : Faults) (root : Node) (ho : GiOK c root) (p : Path)
+theorem walkRequested_spec (c : Cfg) (hb : Benign c) (f : Faults) (root : Node) (ho : GiOK c) (p : Path)
     (s : St) (hi : Idle s) :
     (walkRequested c f s root p).2 = .none ∧ Adv s (walkRequested c f s root p).1 (mustRequested c f root p) := by
   have heo := hb.2.1
@@ -113,7 +104,7 @@ theorem walkRequested_spec (c : Cfg) (hb : Benign c) (f : Faults) (root : Node) 
           refine ⟨rfl, ?_⟩
           exact ⟨hadv3.calls, hi.gis.symm, by rw [hadv3.giDirs], hadv3.cancelled⟩
 
-theorem walkPaths_spec (c : Cfg) (hb : Benign c) (f : Faults) (root : Node) (ho : GiOK c root) :
+theorem walkPaths_spec (c : Cfg) (hb : Benign c) (f : Faults) (root : Node) (ho : GiOK c) :
     ∀ (ps : List Path) (s : St), Idle s →
       (walkPaths c f root s ps).2 = .none ∧ Adv s (walkPaths c f root s ps).1 (ps.flatMap (mustRequested c f root))
   | [], s, hi => by simp [walkPaths, adv_iff, hi.cancelled]
@@ -129,7 +120,7 @@ theorem walkPaths_spec (c : Cfg) (hb : Benign c) (f : Faults) (root : Node) (ho 
     have h2 := walkPaths_spec c hb f root ho rest s1 (hi.of_adv hadv1)
     exact ⟨h2.1, Adv.trans hadv1 h2.2⟩
 
-theorem runRoot_spec (c : Cfg) (hb : Benign c) (f : Faults) (root : Node) (ho : GiOK c root) (s : St) (hi : Idle s) :
+theorem runRoot_spec (c : Cfg) (hb : Benign c) (f : Faults) (root : Node) (ho : GiOK c) (s : St) (hi : Idle s) :
     (runRoot c f s root).2 = .none ∧ Adv s (runRoot c f s root).1 (mustRoot c f root) := by
   unfold runRoot mustRoot
   simp only []
@@ -147,20 +138,20 @@ theorem runRoot_spec (c : Cfg) (hb : Benign c) (f : Faults) (root : Node) (ho : 
 
 theorem runRoots_spec (c : Cfg) (hb : Benign c) :
     ∀ (roots : List (Node × Faults)) (s : St) (acc : List Pkg) (sts : List (Nat × Status)),
-      (∀ rf ∈ roots, GiOK c rf.1) → Idle s →
+      GiOK c → Idle s →
       (runRoots c s acc sts roots).err = .none ∧
       (runRoots c s acc sts roots).calls = s.calls ++ mustExtract c roots
   | [], s, acc, sts, _, _ => by simp [runRoots, mustExtract]
   | (r, f) :: rest, s, acc, sts, ho, hi => by
     simp only [runRoots]
-    have h1 := runRoot_spec c hb f r (ho (r, f) (by simp)) s hi
+    have h1 := runRoot_spec c hb f r ho s hi
     generalize runRoot c f s r = x at h1 ⊢
     obtain ⟨s1, e1⟩ := x
     obtain ⟨he1, hadv1⟩ := h1
     simp only [] at he1 hadv1
     subst he1
     simp only [ne_eq, not_true_eq_false, if_false]
-    have h2 := runRoots_spec c hb rest s1 (acc ++ s1.pkgs) (sts ++ List.map (fun x => (x, statusOf s1 x)) (List.range c.nExt)) (fun rf h => ho rf (by simp [h])) (hi.of_adv hadv1)
+    have h2 := runRoots_spec c hb rest s1 (acc ++ s1.pkgs) (sts ++ List.map (fun x => (x, statusOf s1 x)) (List.range c.nExt)) ho (hi.of_adv hadv1)
     refine ⟨h2.1, ?_⟩
     rw [h2.2, hadv1.calls]
     simp [mustExtract, List.append_assoc]
@@ -168,7 +159,7 @@ theorem runRoots_spec (c : Cfg) (hb : Benign c) :
 /-- **Model A refines its specification** (whole scan): in a benign configuration the scan succeeds and
 the `Extract` calls are exactly `mustExtract`, in enumeration order, for every forest, fault plan and
 option combination. -/
-theorem run_spec (c : Cfg) (hb : Benign c) (roots : List (Node × Faults)) (ho : ∀ rf ∈ roots, GiOK c rf.1) :
+theorem run_spec (c : Cfg) (hb : Benign c) (roots : List (Node × Faults)) (ho : GiOK c) :
     (run c roots).err = .none ∧ (run c roots).calls = mustExtract c roots := by
   unfold run
   have := runRoots_spec c hb roots { cancelled := c.cancelBefore } [] [] ho ⟨rfl, rfl, hb.2.2.1⟩
@@ -276,14 +267,14 @@ theorem benign_noPanic {c : Cfg} (hb : Benign c) : NoExtractorPanic c := hb.2.2.
 
 theorem runRoots_results (c : Cfg) (hb : Benign c) :
     ∀ (roots : List (Node × Faults)) (s : St) (acc : List Pkg) (sts : List (Nat × Status)),
-      (∀ rf ∈ roots, GiOK c rf.1) → Idle s →
+      GiOK c → Idle s →
       (runRoots c s acc sts roots).pkgs = acc ++ pkgsOfCalls c (mustExtract c roots) ∧
       (runRoots c s acc sts roots).statuses =
         sts ++ roots.flatMap fun (r, f) => (List.range c.nExt).map fun e => (e, statusSpec c f r e)
   | [], s, acc, sts, _, _ => by simp [runRoots, mustExtract, pkgsOfCalls]
   | (r, f) :: rest, s, acc, sts, ho, hi => by
     simp only [runRoots]
-    have h1 := runRoot_spec c hb f r (ho (r, f) (by simp)) s hi
+    have h1 := runRoot_spec c hb f r ho s hi
     have hbk := runRoot_book c (benign_noPanic hb) f r s
     generalize runRoot c f s r = x at h1 hbk ⊢
     obtain ⟨s1, e1⟩ := x
@@ -298,7 +289,7 @@ theorem runRoots_results (c : Cfg) (hb : Benign c) :
       exact List.append_cancel_left this
     subst hcur
     have h2 := runRoots_results c hb rest s1 (acc ++ s1.pkgs)
-      (sts ++ List.map (fun x => (x, statusOf s1 x)) (List.range c.nExt)) (fun rf h => ho rf (by simp [h])) (hi.of_adv hadv1)
+      (sts ++ List.map (fun x => (x, statusOf s1 x)) (List.range c.nExt)) ho (hi.of_adv hadv1)
     refine ⟨?_, ?_⟩
     · rw [h2.1, g2]
       simp [mustExtract, pkgsOfCalls_append, List.append_assoc]
@@ -311,7 +302,7 @@ theorem runRoots_results (c : Cfg) (hb : Benign c) :
       rw [this]
       simp [List.append_assoc]
 
-theorem run_results (c : Cfg) (hb : Benign c) (roots : List (Node × Faults)) (ho : ∀ rf ∈ roots, GiOK c rf.1) :
+theorem run_results (c : Cfg) (hb : Benign c) (roots : List (Node × Faults)) (ho : GiOK c) :
     (run c roots).pkgs = pkgsOfCalls c (mustExtract c roots) ∧
     (run c roots).statuses = roots.flatMap fun (r, f) => (List.range c.nExt).map fun e => (e, statusSpec c f r e) := by
   unfold run
